@@ -17,10 +17,14 @@ func init() { rt.Register("H_C05_forest", H_C05_forest) }
 
 var c05Names = []string{"x", "y"}
 
+// c05NameSets: Param(3) selects the names that may be defined: one public name, two public
+// names, or a public and a private (underscore) name.
+var c05NameSets = map[int][]string{1: {"x"}, 2: {"x", "y"}, 3: {"x", "_y"}}
+
 // kinds of a property: 0 absent, 1 plain value, 2 function, 3 method
 func c05Tag(obj, name, kind int) int64 { return int64(1000*(obj+1) + 100*name + kind) }
 
-func c05Literal(i int, kinds []int, miss bool) string {
+func c05Literal(i int, kinds []int, miss bool, c05Names []string) string {
 	parts := []string{fmt.Sprintf("id: %d", i)}
 	for n, k := range kinds {
 		t := c05Tag(i, n, k)
@@ -44,7 +48,8 @@ func c05Literal(i int, kinds []int, miss bool) string {
 // first object's configuration (shard).
 func H_C05_forest() {
 	N, nk := rt.Param(0), rt.Param(1)
-	names := c05Names[:rt.Param(3)]
+	names := c05NameSets[rt.Param(3)]
+	c05Names := append(append([]string{}, names...), "y")[:2] // (kinds of an unused second name stay 0)
 	h := NewH()
 	parent := make([]int, N) // -1 = Obj
 	kinds := make([][]int, N)
@@ -65,7 +70,7 @@ func H_C05_forest() {
 			}
 			miss[i] = rt.Bool()
 		}
-		lit := c05Literal(i, kinds[i], miss[i])
+		lit := c05Literal(i, kinds[i], miss[i], c05Names)
 		var src string
 		if i == 0 {
 			parent[0] = -1
@@ -122,7 +127,7 @@ func H_C05_forest() {
 		// keys: own public names, sorted
 		want := []string{"id"}
 		for n, name := range c05Names {
-			if kinds[j][n] != 0 {
+			if kinds[j][n] != 0 && !strings.HasPrefix(name, "_") {
 				want = append(want, name)
 			}
 		}
@@ -133,8 +138,9 @@ func H_C05_forest() {
 			s, ok := ka.Elems[i].(*object.PanStr)
 			rt.Assert(ok && s.Value == w, "keys must be the own public names in sorted order")
 		}
-		// lookups: x, y and the never-defined z
-		for n, name := range append(append([]string{}, names...), "z") {
+		// lookups: the names of the set and the never-defined z and _w (private names resolve
+		// exactly like public ones: chain, then _missing, then NoPropErr)
+		for n, name := range append(append([]string{}, names...), "z", "_w") {
 			d := -1 // first definer
 			if n < len(names) {
 				for _, c := range ch {
